@@ -31,7 +31,7 @@ META = {
     'assumptions': sorted(set(c02.META['assumptions'] + c04.META['assumptions'] + c05.META['assumptions'])),
 }
 
-GRAD = re.compile(r'(sens\.|s1\.|posterior\.s1|usable|layout\.split|constructed-evaluable|wrap\.collapse\+routing|call\.sum-once|runtime-contract)')
+GRAD = re.compile(r'(sens\.|s1\.|posterior\.s1|usable|layout\.split|constructed-evaluable|wrap\.collapse\+routing|call\.sum-once|runtime-contract|integer\.inputs)')
 
 
 def filtered(rec, prefix):
